@@ -85,6 +85,13 @@ func genC09Base(rt *rapid.T) c09Base {
 		b.Sc.NoRead[1] = true
 		b.Sc.Mode = ""
 		b.Sc.Acts = append(b.Sc.Acts, vfAct{AtMs: 0, Side: 0, Kind: "write", SID: 1, Size: 1400, PPI: 53, N: 6})
+		// a transport whose Write takes a while: the write loop is then parked inside it when
+		// the teardown comes
+		b.Sc.WDelayUs[0] = rapid.SampledFrom([]int{0, 0, 300, 5000, 50000}).Draw(rt, "wdelay")
+		// further writers blocked at the same time, each on a stream of its own
+		for k := rapid.IntRange(0, 2).Draw(rt, "moreblocked"); k > 0; k-- {
+			b.Sc.Acts = append(b.Sc.Acts, vfAct{AtMs: rapid.IntRange(0, 3).Draw(rt, "bat"), Side: 0, Kind: "write", SID: 1 + k, Size: rapid.SampledFrom([]int{10, 1400}).Draw(rt, "bsize"), PPI: 53, N: rapid.IntRange(1, 4).Draw(rt, "bn")})
+		}
 		b.EndMs = 2500
 	}
 	return b
